@@ -123,6 +123,7 @@ def generate(rng, tier):
         n = rng.randrange(10, 140)
         th = list(range(nth))
         mode = rng.random()
+        staged_toks = None
         if mode < 0.2:
             # staged: whole phases of one thread each, so that calls overlap - measurements, a ForceFlush, the worker and its
             # collect thread part of the way through the cycle, more measurements and a second ForceFlush (or Shutdown) that
@@ -142,6 +143,14 @@ def generate(rng, tier):
             if S1 is not None and rng.random() < 0.5:
                 stages.insert(rng.randrange(3, len(stages)), (S1, rng.randrange(3, 12)))
             sched = [t for t, k in stages for _k in range(k)]
+            if rng.random() < 0.4:
+                # the timeout path: the collect thread is parked inside (or just before) Export, the worker's wait for it
+                # times out (`o0`), later the interval expires (`o0` again) and the next cycle's collect thread runs - the
+                # first Export must have returned by then
+                pre = [f't{R1}'] * rng.randrange(0, 4) + ['t0'] * rng.randrange(2, 8) + [f't{C}'] * rng.randrange(1, 7)
+                mid = ['o0'] + ['t0'] * rng.randrange(1, 10) + ([f't{F1}'] * rng.randrange(3, 10) if rng.random() < 0.5 else [])
+                nxt = ['o0'] + ['t0'] * rng.randrange(2, 12) + [f't{C + 1}'] * rng.randrange(2, 8) + [f't{C}'] * rng.randrange(0, 6)
+                staged_toks = pre + mid + nxt + ['t0'] * rng.randrange(0, 10)
         elif mode < 0.4:
             cur = rng.choice(th); sched = []
             for _k in range(n):
@@ -153,7 +162,7 @@ def generate(rng, tier):
             w[0] += 0.6
             sched = rng.choices(th, weights=w, k=n)
         toks = []
-        for t in sched:
+        for t in ([] if staged_toks else sched):
             r = rng.random()
             if r < 0.08:
                 toks.append(f'o{t}')
@@ -161,7 +170,10 @@ def generate(rng, tier):
                 toks.append(f'w{t}')
             else:
                 toks.append(f't{t}')
-        out.append(Case(f'pmr {nrec} {recs} {fl or "-"} {nshut} {xs} ; ' + ' ; '.join(toks), 'd_pmr', ('pmr', 'random', f'fl{len(fl)}sh{nshut}')))
+        if staged_toks:
+            toks = staged_toks
+        out.append(Case(f'pmr {nrec} {recs} {fl or "-"} {nshut} {xs} ; ' + ' ; '.join(toks), 'd_pmr',
+                        ('pmr', 'timeout-path' if staged_toks else ('staged' if mode < 0.2 else 'random'), f'fl{len(fl)}sh{nshut}')))
     return out
 
 
